@@ -335,7 +335,7 @@ func loggerPart(r *seq.Run, tier string) {
 	if tier == "thorough" {
 		L = 7
 	}
-	cfgs := []cfg{basicCfg(2), basicCfg(3), burstCfg(1, P, nil), burstCfg(2, P, func() *cfg { c := basicCfg(2); return &c }())}
+	cfgs := []cfg{basicCfg(0), basicCfg(1), basicCfg(2), basicCfg(3), burstCfg(1, P, nil), burstCfg(2, P, func() *cfg { c := basicCfg(2); return &c }())}
 	for _, c := range cfgs {
 		for _, loggerLevel := range []zerolog.Level{zerolog.TraceLevel, zerolog.InfoLevel} {
 			idx := make([]int, L)
